@@ -123,7 +123,13 @@ def handleTable (j : Json) : Except String Json := do
 /-- {"op":"clean","p":S} → `clean(p)` and `Path::new(p).lexiclean()` as text -/
 def handleClean (j : Json) : Except String Json := do
   let p ← j.getObjValAs? String "p"
-  return Json.mkObj [("clean", String.ofList (Path.cleanFn p.toList)), ("lexiclean", String.ofList (Path.lexiclean p.toList))]
+  let o (x : Option (List Char)) : Json := match x with | some l => Json.str (String.ofList l) | none => Json.null
+  let q := p.toList
+  let parts := (p.splitOn "|").map String.toList
+  return Json.mkObj [("clean", String.ofList (Path.cleanFn q)), ("lexiclean", String.ofList (Path.lexiclean q)),
+    ("file_name", o (Path.fileName q)), ("extension", o (Path.extensionOf q)), ("file_stem", o (Path.fileStem q)),
+    ("parent_directory", o (Path.parentStr q)), ("without_extension", o (Path.withoutExtension q)),
+    ("join", match parts with | b :: ws => Json.str (String.ofList (Path.joinPaths b ws)) | [] => Json.null)]
 
 /-- {"op":"entries","decls":[Decl],"aliases":[AliasOf]} → the `--list` entries of each recipe -/
 def handleEntries (j : Json) : Except String Json := do
